@@ -7,10 +7,11 @@ NOTE = ("Trusted: cbmc 6.11 front end/symex/back end; harness reference models a
         "all claims hold only within the bounds recorded in coverage.obligation_details (symbolic buffer sizes, unwind bounds, enumerated grids); "
         "allocation failure out of scope; left shift of negative values treated as GNU-C defined.")
 CLAIMED = {
- "C01": ("Memory safety, assertion freedom, defined arithmetic and loop termination of the Teletext packet decoder, decided per leaf parser and per packet class: every parser "
-         "(MOT, POP, X/27, X/28-29, AIT, BTT, MPT, MPT-EX, MIP, DRCS conversion, page links, row parity gate) and the vbi_decode_teletext dispatcher for every packet number are executed "
-         "symbolically on an arbitrary 40-byte row with exact-size state objects, so an access one byte outside an object is a refutation. Caption/XDS units are covered under C09, raw decoding under C05, "
-         "DVB under C07, proxy under C19; formatting/export/search at full size are outside (see evidence 'outside').", "0.3 / 5 C01"),
+ "C01": ("Memory safety, assertion freedom, defined arithmetic and loop termination, decided unit by unit on arbitrary input with exact-size state objects and frame assertions "
+         "(an access one byte outside an object or a member is a refutation): the Teletext packet decoder per leaf parser (MOT with exact result, POP, X/27, AIT, MPT, MPT-EX, page links, row parity gate; "
+         "BTT, MIP, DRCS, X/28-29 in the thorough tier) and the vbi_decode_teletext dispatcher per packet class and page header; Closed Caption (roll-up window, last column, one step per command class from an "
+         "arbitrary channel state), XDS demultiplexer / separator / decoder steps at the buffer limit and terminator, caption rendering and text/export write layer on exact-size canvases and buffers "
+         "(selected C08/C09/C16 obligations). trigger.c, object enhancement in vbi_fetch_vt_page, image exporters, search and whole-decoder composition are outside (see evidence 'outside' and DESIGN 0.3).", "0.3 C01"),
  "C02": ("Page links (X/27/0..3) produced by a reference encoder for all page/subcode/magazine values are stored exactly; the row parity gate copies a good row byte-exactly and never lets a bad row replace a "
          "cached one; header field decoding (page number, subcode, national and control bits) equals an independent Hamming decode. Assembly across packets, Level-1 formatting and character sets are "
          "claimed only as far as the listed obligations go.", "0.3 / 5 C02"),
@@ -73,7 +74,7 @@ NA = {
  "C20": "quantifier is thread schedules: goto-instrument --race-check crashes on struct-member shared state and cbmc's thread support aborts ('pointer handling for concurrency is unsound') on the real functions; "
         "no other engine is installed; lock discipline is checked sequentially inside other properties' harnesses (DESIGN section 5 C20)",
 }
-READY = ["C02", "C04", "C05", "C06", "C07", "C08", "C09", "C10", "C11", "C12", "C13", "C14", "C15", "C16", "C17", "C18", "C19"]   # properties whose quick check is known to pass on the unchanged tree
+READY = ["C01", "C02", "C03", "C04", "C05", "C06", "C07", "C08", "C09", "C10", "C11", "C12", "C13", "C14", "C15", "C16", "C17", "C18", "C19"]   # properties whose quick check is known to pass on the unchanged tree
 
 def main():
     props = [json.loads(l)["id"] for l in open(os.path.join(HERE, "properties.jsonl"))]
